@@ -811,6 +811,41 @@ def run_exchange(steps, assign, fault, pos, open_error=None, hold=None, release_
     return r, streamed, bad
 
 
+def _h2_shared_connect(nstreams, fails):
+    """real HttpLayer, HTTP/2 client, `nstreams` requests to one destination in one segment (they wait on one pending connect)"""
+    import h2.connection
+    import h2.config
+    from props import sansio
+    from props.http_sansio import HoldDriver
+    from mitmproxy.proxy.layers import http
+    from mitmproxy.proxy.layers.http import HTTPMode
+    from mitmproxy.connection import ConnectionState
+    ctx = sansio.context_for(sansio.make_options())
+    ctx.client.alpn = b"h2"
+    top = http.HttpLayer(ctx, HTTPMode.regular)
+    flows = {}
+
+    def pol(cmd):
+        fl = getattr(cmd, "flow", None)
+        if fl is not None:
+            flows.setdefault(fl.request.path, ([], fl))[0].append(cmd.name)
+
+    d = HoldDriver(top, hook_policy=pol, open_policy=(lambda cmd: "connection refused") if fails else None)
+    d.start()
+    cl = h2.connection.H2Connection(h2.config.H2Configuration(client_side=True))
+    cl.initiate_connection()
+    for i in range(nstreams):
+        cl.send_headers(2 * i + 1, [(":method", "GET"), (":scheme", "http"), (":authority", "example.com"), (":path", f"/s{i}")], end_stream=True)
+    d.data(ctx.client, cl.data_to_send())
+    for srv in list(d.opened):
+        d.data(srv, b"HTTP/1.1 200 OK\r\nContent-Length: 2\r\n\r\nok")
+    for srv in list(d.opened):
+        if srv.state & ConnectionState.CAN_READ:
+            d.close(srv)
+    d.close(ctx.client)
+    return flows
+
+
 def bounded(tier, seed):
     import itertools, random
     from props.http_sansio import lifecycle_violations, outcome_violations
@@ -865,6 +900,26 @@ def bounded(tier, seed):
                     upgraded = fl.response is not None and fl.response.status_code == 101
                     for v in outcome_violations(names, fl, connect=connect, upgraded=upgraded):
                         b.fail("c03.outcome" + tag + ":" + v.split(" (")[0].split(" after")[0], inp, v)
+    # ---- HTTP/2 client: several streams waiting on ONE pending upstream connect (same destination); the connect fails or succeeds.
+    #      Every waiting stream must be answered: each flow gets exactly one outcome and ends not live.
+    for nstreams in (2, 3):
+        for fails in (True, False):
+            inp = dict(family="h2_shared_connect", streams=nstreams, connect_fails=fails)
+            b.case(repr(sorted(inp.items())))
+            try:
+                flows = _h2_shared_connect(nstreams, fails)
+            except Exception as e:
+                b.fail("c03.h2_shared_connect.total", inp, f"{type(e).__name__}: {e}")
+                continue
+            if len(flows) != nstreams:
+                b.fail("c03.h2_shared_connect.all_streams_seen", inp, f"{len(flows)} flows")
+            for path, (names, fl) in sorted(flows.items()):
+                for v in lifecycle_violations(names):
+                    b.fail("c03.h2_shared_connect.order", inp, f"{path}: {v}; hooks={names}")
+                for v in outcome_violations(names, fl):
+                    b.fail("c03.h2_shared_connect.every_waiting_stream_gets_its_outcome", inp, f"{path}: {v}")
+                if fails and "error" not in names:
+                    b.fail("c03.h2_shared_connect.every_waiting_stream_gets_its_outcome", inp, f"{path}: connect failed but hooks={names}")
     return b
 
 
@@ -1030,3 +1085,48 @@ def s_h1_read_body_closed(vc):
         return
     vc.ensure("for_the_open_stream", errs[0].event.stream_id == sid)
     vc.ensure("nothing_else_received", all(is_cmd(c, "ReceiveHttp") or is_cmd(c, "CloseConnection") for c in out.trace))
+
+
+@scenario("register_connection.every_waiting_stream_is_answered", functions=["mitmproxy.proxy.layers.http:HttpLayer.register_connection"], asserts_are_obligations=True)
+def s_register_connection_answers_all(vc):
+    """Outcome clause, HttpLayer side: when a pending upstream connect completes (or FAILS), every stream waiting for it in
+    waiting_for_establishment gets its GetHttpConnectionCompleted (so that make_server_connection can fire the error hook) or - HTTP/2
+    client with a non-h2 upstream that was established - is re-dispatched to a connection of its own.  No waiting stream is dropped."""
+    from props import C08 as B8
+    from mitmproxy.connection import ConnectionState as S
+    from mitmproxy.proxy.layers.http import HTTPMode
+    H_ = "mitmproxy.proxy.layers.http"
+    n = vc.case("waiting", [2, 3])
+    failed = vc.case("connect_failed", [True, False])
+    client = mk_client(vc, alpn=vc.opt("client_alpn", b"h2"))
+    c, cspec = B8.sym_conn(vc, "c", state=S.CLOSED if failed else S.OPEN)
+    cmds = [B8.mk_cmd(vc, cspec) for _ in range(n)]
+    streams = [B8.mk_plain_layer(vc, HS, None, stream_id=2 * i + 1) for i in range(n)]
+    ctxsrv = mk_server(vc, "ctxsrv", address=None)
+    hsrv = B8.mk_plain_layer(vc, H_ + "._http1:Http1Server", mk_context(vc, client, ctxsrv))
+    hc = B8.mk_plain_layer(vc, H_ + ":HttpClient", mk_context(vc, client, c))
+    lay = B8.mk_http_layer(vc, HTTPMode.regular, client, ctxsrv, [(client, hsrv), (c, hc)], [(c, cmds)], list(zip(cmds, streams)))
+    errmsg = vc.sym_str("err")
+    vc.assume(len_(errmsg) > 0)
+    reg = vc.new(H_ + ":RegisterHttpConnection", connection=c, err=errmsg if failed else None, blocking=False)
+    redisp = []
+
+    def get_conn_summary(v, self_, event, reuse=True):
+        redisp.append(event)
+        return v.gen([v.ghost("get_connection", event, reuse)])
+
+    vc.summary(H_ + ":HttpLayer.event_to_child", B8.to_child_summary)
+    vc.summary(H_ + ":HttpLayer.get_connection", get_conn_summary)
+    out = vc.call(H_ + ":HttpLayer.register_connection", lay, reg)
+    vc.ensure("no_exception", out.ok)
+    if not out.ok:
+        return
+    answered = [t[2].command for t in out.trace if B8.is_ghost(t, "to_child")]
+    for i in range(n):
+        handled = sum(1 for a in answered if a is cmds[i]) + sum(1 for r in redisp if r is cmds[i])
+        vc.ensure(f"waiter[{i}].answered_or_redispatched_exactly_once", handled == 1)
+    if failed:
+        vc.ensure("failed.everybody_gets_the_error", len(answered) == n and redisp == [])
+        for t in out.trace:
+            if B8.is_ghost(t, "to_child"):
+                vc.ensure("failed.reply_is_the_error", And(isnone(t[2].reply[0]), vc.eq(t[2].reply[1], errmsg)))
